@@ -115,9 +115,10 @@ theorem computeRows_disj (c : Circuit) (H : Int) (hpos : 0 < H) (hH : Circuit.ro
     omega
 
 /-- **Idempotence at circuit level**, for any rounding of the ordering key that keeps the
-left-to-right order (`KeyOrder`). -/
-theorem legalizeWith_fixed (rnd : Rat → Rat) (p : Params) (c : Circuit) (hp : p.check = true)
-    (hd : DomC c) (hs : SingleRow c) (hl : LegalC c) (ho : OrientLegal c) (hk : KeyOrder rnd p (movable c)) :
+left-to-right order of the cells of each free segment (`KeyOrderSeg` over `computeRows`). -/
+theorem legalizeWith_fixed_seg (rnd : Rat → Rat) (p : Params) (c : Circuit) (hp : p.check = true)
+    (hd : DomC c) (hs : SingleRow c) (hl : LegalC c) (ho : OrientLegal c)
+    (hk : KeyOrderSeg rnd p c.computeRows (movable c)) :
     legalizeWith rnd p c = .ok c := by
   obtain ⟨⟨H, hpos, hH, hcl⟩, hdis, hx, _⟩ := hd
   have hgood := computeRows_good c H hH hx
@@ -166,5 +167,11 @@ theorem legalizeWith_fixed (rnd : Rat → Rat) (p : Params) (c : Circuit) (hp : 
   rw [run_fixed rnd p c.computeRows H (movable c) hgood hdisj hcells hnoov hk]
   simp only [exportPlacement, movable]
   rw [exportCells_final]
+
+/-- the same under the row-wide hypothesis `KeyOrder` -/
+theorem legalizeWith_fixed (rnd : Rat → Rat) (p : Params) (c : Circuit) (hp : p.check = true)
+    (hd : DomC c) (hs : SingleRow c) (hl : LegalC c) (ho : OrientLegal c) (hk : KeyOrder rnd p (movable c)) :
+    legalizeWith rnd p c = .ok c :=
+  legalizeWith_fixed_seg rnd p c hp hd hs hl ho (hk.toSeg _)
 
 end ColoVerif.Legalize
